@@ -36,6 +36,8 @@ try:
                                     "--no-evidence", "--no-minimise", "--seed", str(m.get("seed", 0))],
                                    capture_output=True, text=True, env=env, timeout=1800)
                 caught = "VIOLATION property=" in p.stdout
+                if not caught and os.environ.get("MUTATE_DEBUG"):
+                    print(p.stdout[-1500:]); print(p.stderr[-1500:])
                 line = [l for l in p.stdout.splitlines() if "clause=" in l][:1]
                 print("MUTANT %-40s %-4s %s rc=%d %s" % (m["name"], chk, "CAUGHT" if caught else "MISSED", p.returncode, line[0].strip()[:110] if line else ""))
                 results.append((m["name"] + ":" + chk, "caught" if caught else "missed"))
